@@ -20,6 +20,7 @@ fn base(prop: &'static str) -> Cfg {
         direct: false,
         via_adapter: false,
         late_stack: false,
+        stack_mid_item: false,
         twin: false,
         prop,
     }
@@ -322,6 +323,32 @@ fn plans(prop: &str, tier: &str) -> Vec<Plan> {
                 }
             }
             out.push(Plan { name: "c12-late-stack", cfgs: late, depth: if q { 4 } else { 5 } });
+            // ... and on one that is in the middle of an input item: manual polls,
+            // no drain before the stage is stacked (unbatched: only there a second
+            // diff can be parked inside the adapter)
+            let mut mid = Vec::new();
+            for lower_l in [Lim::DynInit(2, LimSrc::Obs), Lim::DynInit(1, LimSrc::Queue), Lim::Dyn(LimSrc::Queue)] {
+                for lower in hts(lower_l) {
+                    for upper in [StageKind::Filter, StageKind::Head(Lim::Static(2)), StageKind::Sort] {
+                        for init in [vec![0u8, 1, 1], vec![1u8, 0]] {
+                            for direct in [false, true] {
+                                if direct && matches!(lower, StageKind::Tail(_)) {
+                                    continue;
+                                }
+                                let mut c = mk(vec![lower, upper], false, &init, Alphabet::Reduced, 16);
+                                c.via_adapter = true;
+                                c.late_stack = true;
+                                c.stack_mid_item = true;
+                                c.policy = Policy::Manual;
+                                c.direct = direct;
+                                c.max_limit = 3;
+                                mid.push(c);
+                            }
+                        }
+                    }
+                }
+            }
+            out.push(Plan { name: "c12-late-stack-mid-item", cfgs: mid, depth: if q { 4 } else { 5 } });
             // lag inside chains: manual polling, capacity 1, so that a Reset
             // travels up the chain and is followed by index-addressed updates
             let lagmenu = [
